@@ -1000,6 +1000,37 @@ func vH_C15(a []byte, b []byte, w1 int, w2 int) {
 	}
 }
 
+// the caller reuses its input buffer: after the first call the second document is written over the
+// first one's bytes (same backing array, same offsets) and read with the same reader. Whatever the
+// reader remembered about the first input (positions, sub-slices of it) must not leak into the
+// second result, and the first result must not change when its input is overwritten.
+func vH_C15_alias(a []byte, b []byte, w1 int, w2 int) {
+	var r ValueReader
+	g1, _, e1 := vReaderCall(w1, &r, a)
+	var want1 interface{}
+	if e1 == nil {
+		want1, _, _ = vRefDecode(a, vSkipWS(a, 0))
+	}
+	in := b
+	if len(b) <= len(a) {
+		n := copy(a, b)
+		in = a[:n]
+	}
+	g2, p2, e2 := vReaderCall(w2, &r, in)
+	var fresh ValueReader
+	f2, fp2, fe2 := vReaderCall(w2, &fresh, b)
+	vReach("C15.alias-second-call")
+	vAssert((e2 == nil) == (fe2 == nil), "C15.alias.same-success")
+	if e2 == nil && fe2 == nil {
+		vReach("C15.alias-second-ok")
+		vAssert(p2 == fp2, "C15.alias.same-offset")
+		vAssert(vTreeEq(g2, f2), "C15.alias.same-tree")
+	}
+	if e1 == nil {
+		vAssert(vTreeEq(g1, want1), "C15.alias.earlier-result-unchanged")
+	}
+}
+
 // three calls: A, then B (possibly failing), then C compared with fresh; A's result must survive
 func vH_C15_three(a []byte, b []byte, c []byte, w1, w2, w3 int) {
 	var r ValueReader
